@@ -1,4 +1,4 @@
-CONSTANTS DEPTH = 3  N = 3  D = 2  K = 3  TMAX = 14  FIXTO = TRUE
+CONSTANTS DEPTH = 3  N = 3  D = 2  K = 3  TMAX = 14  BLIND = {}  FIXTO = TRUE
 SPECIFICATION Spec
 INVARIANTS BoundedDelay ArrivedWasFed
 CHECK_DEADLOCK FALSE
